@@ -56,3 +56,6 @@ OBLIGATIONS = [Obl("rt_long", rt_long, {"shape": I(0, 3), "li": I(0, len(LONG) -
     entry_obl("rt_ber", rt_ber, e, extra={"defMode": B, "chunk": I(0, 2 ** 31 - 1)})
     for e in all_entries(ber_only=True)
 ]
+
+# exponent-octet sign boundaries of binary REALs (third sensitivity round): cheap, so also in the quick tier here
+promote(OBLIGATIONS, ["real_exp"])
